@@ -114,7 +114,7 @@ func (s *dsys) Reset() error {
 	s.closeHandles()
 	_ = os.Chdir("/")
 
-	if err := os.RemoveAll(filepath.Dir(s.R)); err != nil {
+	if err := cleanDir(s.R); err != nil {
 		return err
 	}
 
